@@ -22,6 +22,7 @@ type Ctx struct {
 	entries []*entry
 	byName  map[string]*entry
 	fresh   map[string]int
+	lets    map[string]string // hash-consing of Let: sort|term -> name
 	Logic   string
 }
 
@@ -119,8 +120,15 @@ func (c *Ctx) Let(prefix string, t Term) Term {
 	if len(t.S) < 24 || isAtom(t.S) {
 		return t
 	}
+	if c.lets == nil {
+		c.lets = map[string]string{}
+	}
+	if n, ok := c.lets[t.Sort+"|"+t.S]; ok {
+		return Term{n, t.Sort}
+	}
 	name := c.FreshName(prefix)
 	c.add(&entry{names: []string{name}, isDef: true, text: fmt.Sprintf("(define-fun %s () %s %s)", name, t.Sort, t.S)})
+	c.lets[t.Sort+"|"+t.S] = name
 	return Term{name, t.Sort}
 }
 
